@@ -114,6 +114,11 @@ func (l *Lexer) NextToken() Token {
 			tok.Literal = l.readIdentifier()
 			tok.Type = LookupIdent(tok.Literal)
 
+			if tok.Type != IDENT {
+				// keywords are case-insensitive; the parser and evaluator work with the canonical spelling
+				tok.Literal = string(tok.Type)
+			}
+
 			return tok
 		}
 
